@@ -141,6 +141,30 @@ def congruence_facts(eng, formulas, hyps):
                 s.add(z3.Not(z3.And(n1 == n2, z3.Implies(z3.And(j >= 0, j < n1), body_eq))))
                 if s.check() == z3.unsat:
                     facts.append(t1 == t2)
+                    continue
+                if nm != "SumF":
+                    continue
+                # R3 (monotonicity): forall j. f(j) <= g(j)  =>  Sum f <= Sum g   (and symmetrically)
+                for (x, y) in ((t1, t2), (t2, t1)):
+                    s = z3.Solver()
+                    s.set("timeout", 3000)
+                    s.add(*hyps)
+                    s.add(*facts)
+                    s.add(z3.Not(z3.And(n1 == n2, z3.Implies(z3.And(j >= 0, j < n1), z3.Select(x.arg(1), j) <= z3.Select(y.arg(1), j)))))
+                    if s.check() == z3.unsat:
+                        facts.append(x <= y)
+        if nm == "SumF":
+            # R3 (bounds): forall j. l <= f(j) <= u  =>  n*l <= Sum f <= n*u, instantiated for indicator-like bodies (l=0, u=1)
+            for t in terms:
+                n = t.arg(0)
+                j = z3.Int(f"bd!{t.get_id()}")
+                s = z3.Solver()
+                s.set("timeout", 3000)
+                s.add(*hyps)
+                body = z3.Select(t.arg(1), j)
+                s.add(z3.Not(z3.Implies(z3.And(j >= 0, j < n), z3.And(body >= 0, body <= 1))))
+                if s.check() == z3.unsat:
+                    facts.append(z3.Implies(n >= 0, z3.And(t >= 0, t <= z3.ToReal(n))))
     return facts
 
 
